@@ -156,6 +156,44 @@ Definition c18_finalizer (c : case) : bool :=
   (negb (ob_gone o) && ob_finalizer o) || negb (rs_finalizer (rc_spec c)) ||
   (rs_deleting (rc_spec c) && match rp_term (rc_status c) with Some true => true | _ => false end).
 
+(* C18 / C05: an exit is declared finished (Terminating condition Completed, phase Disabled, Progressing condition Completed) only when
+   the BatchRelease is gone and the in-progress marker has been removed from the workload *)
+Definition exit_declared (old new : ro_status) : bool :=
+  (match rp_term new, rp_term old with Some true, Some true => false | Some true, _ => true | _, _ => false end) ||
+  (rphase_eqb (rp_phase new) RpDisabled && rphase_eqb (rp_phase old) RpDisabling) ||
+  (match rp_prog new, rp_prog old with
+   | Some (PrCompleted, _, _), Some (PrFinalising, _, _) | Some (PrCompleted, _, _), Some (PrCancelling, _, _) => true
+   | _, _ => false end).
+(* position of a task in the order of a reason; the persisted finalising step says which tasks already completed *)
+Fixpoint pos_of (t : ftask) (l : list ftask) (i : nat) : option nat :=
+  match l with [] => None | a :: r => if ftask_eqb t a then Some i else pos_of t r (S i) end.
+Definition release_not_yet_done (r : freason) (fin : ftask) : bool :=
+  match fin with
+  | FtNone => true
+  | _ => match pos_of fin (canary_tasks r) O, pos_of FtRelease (canary_tasks r) O with
+         | Some i, Some j => Nat.leb i j
+         | _, _ => true end
+  end.
+Definition exit_reason (old : ro_status) : freason :=
+  match rp_phase old, rp_prog old with
+  | RpTerminating, _ => FrDelete
+  | RpDisabling, _ => FrDisabled
+  | _, Some (PrCancelling, _, _) => FrRollback
+  | _, _ => FrSuccess
+  end.
+Definition exit_means_clean (c : case) : bool :=
+  let o := rc_obs c in
+  match rp_sub (rc_status c) with
+  | Some u =>
+    if exit_declared (rc_status c) (ob_status o) && negb (ftask_eqb (su_fin u) FtEnd) &&
+       (* persisted states in which ReleaseWorkloadControl has already completed cannot have a BatchRelease left *)
+       release_not_yet_done (exit_reason (rc_status c)) (su_fin u) then
+      match ob_br o with None => true | Some _ => false end &&
+      (negb (ob_anno o) || negb (wl_exists (rc_wl c) && wl_consistent (rc_wl c)))
+    else true
+  | None => true      (* nothing was ever started: no BatchRelease, no marker, belongs to this Rollout *)
+  end.
+
 Definition in_domain (c : case) : bool :=
   let sp := rc_spec c in
   negb (Nat.eqb (List.length (rs_steps sp)) 0) &&
@@ -181,7 +219,10 @@ Definition judge (c : case) : list verdict :=
      clause "C02_paused_no_progress" (c02_paused c);
      clause "C02_partition_raise_authorised" (c02_partition c);
      clause "C10_rollback_and_supersession_dispatch" (c10_dispatch c) ]) ++
-  [ clause "C18_rollout_finalizer_guard" (c18_finalizer c) ].
+  [ clause "C18_rollout_finalizer_guard" (c18_finalizer c) ] ++
+  (if ob_panic o || ob_gone o then [] else
+   [ clause "C18_exit_declared_only_when_clean" (exit_means_clean c);
+     clause "C05_exit_declared_only_when_clean" (exit_means_clean c) ]).
 
 Definition tag (c : case) : string :=
   match reconcile (rc_spec c) (rc_status c) (rc_wl c) (rc_br c) with
